@@ -33,15 +33,15 @@ func mkPayload(id, n int) []byte {
 }
 
 type walRun struct {
-	w      *walwrap.World
-	rec    *trace.Recorder
-	fq     queue.FanOutQueue
-	groups map[string]queue.ConsumerGroup
-	nextID int
-	rng    *rand.Rand
-	lines  [][]byte // events of this history (for crash-image prefixes)
-	points []walPoint
-	image  bool
+	w       *walwrap.World
+	rec     *trace.Recorder
+	fq      queue.FanOutQueue
+	groups  map[string]queue.ConsumerGroup
+	nextID  int
+	rng     *rand.Rand
+	lines   [][]byte // events of this history (for crash-image prefixes)
+	points  []walPoint
+	image   bool
 	opsDone int
 	noImage bool // inside an explicit index reset: its crash points are outside C05/C06
 }
